@@ -335,6 +335,12 @@ pub fn run(session: &Session) -> i32 {
         "f := (n: int) -> int { if n <= 0 { return 0; } return n + f(n - 1); }",
         "k := mut 10; f := (n: int) -> int { k += n; return *k; }",
         "g := (n: int) -> int { return n * 2; }; f := (n: int) -> int { return g(n) + 1; }",
+        // `any` parameters before and between typed ones: every argument is checked against its own parameter
+        "f := (k: any, n: int, s: string) -> string { return s; }",
+        "f := (n: int, k: any, s: string) -> string { return s; }",
+        "f := (k: any, s: string) -> string { return s; }",
+        "f := (a: any, b: any, c: [int]) -> [int] { return c; }",
+        "f := (u: int|string, k: any, n: float) -> float { return n; }",
     ];
     let pool = ["1", "\"s\"", "2.5", "[1]", "()", "true", "(1, 2)"];
     for program in functions {
@@ -347,6 +353,17 @@ pub fn run(session: &Session) -> i32 {
         }
         for l in [vec!["1", "2", "3"], vec!["1", "\"s\"", "[1]"], vec!["1", "2", "3", "4"], vec!["()", "()", "()"], vec!["\"s\"", "[1]", "1", "2.5"]] {
             lists.push(l);
+        }
+        if program.matches(": ").count() >= 4 || program.contains("(a: int, b: int, c: int)") || program.contains(", k: any,") || program.contains("(k: any, n: int") || program.contains("b: any, c:") {
+            // three parameters: every triple over a smaller pool
+            let small = ["1", "\"s\"", "2.5", "[1]", "true"];
+            for a in small {
+                for b in small {
+                    for c in small {
+                        lists.push(vec![a, b, c]);
+                    }
+                }
+            }
         }
         for l in lists {
             let arity = if l.is_empty() { 0 } else { 3 };
@@ -368,7 +385,7 @@ pub fn run(session: &Session) -> i32 {
         session.run_tapes(&C17, session.tier.of(12_000, 600_000), 600, 0);
     }
     session.finish(
-        "(repl) tape-generated typed programs are split into REPL inputs of 1-3 top-level statements; after every input the incremental route (parse against the live interpreter, exec_unscoped) is compared with the batch route (the whole prefix as one program into a fresh interpreter) on the last result and on the canonical value of every top-level variable, until the routes diverge in acceptance (allowed, counted) or end in the same error; the full program is then executed twice from one Code: equal canonical results, no cell of the first result is the same object as a cell of the second, and the interpreter the code was parsed against has none of the program's names. (call) every third (quick) / every (thorough) accepted one-parameter function of the operator x operand-type matrix x every value of every catalogue type, plus arity changes, and 19 functions of 0 to 3 parameters (user-written incl. parameters spelled like the function, recursion and captured cells, native and user-written iterators, std functions) x argument lists of 0 to 4 values: Function::create_call must accept exactly the argument lists the in-language call `f(v)` accepts and return the same value or error. Non-trivial = a later input mentions an earlier binding / an ill-typed or wrong-arity argument list; distinct by text.",
+        "(repl) tape-generated typed programs are split into REPL inputs of 1-3 top-level statements; after every input the incremental route (parse against the live interpreter, exec_unscoped) is compared with the batch route (the whole prefix as one program into a fresh interpreter) on the last result and on the canonical value of every top-level variable, until the routes diverge in acceptance (allowed, counted) or end in the same error; the full program is then executed twice from one Code: equal canonical results, no cell of the first result is the same object as a cell of the second, and the interpreter the code was parsed against has none of the program's names. (call) every third (quick) / every (thorough) accepted one-parameter function of the operator x operand-type matrix x every value of every catalogue type, plus arity changes, and 24 functions of 0 to 3 parameters (all argument triples over 5 values for the three-parameter ones, incl. `any` parameters before typed ones) (user-written incl. parameters spelled like the function, recursion and captured cells, native and user-written iterators, std functions) x argument lists of 0 to 4 values: Function::create_call must accept exactly the argument lists the in-language call `f(v)` accepts and return the same value or error. Non-trivial = a later input mentions an earlier binding / an ill-typed or wrong-arity argument list; distinct by text.",
         false,
         &["acceptance differences between the routes of the REPL comparison are permitted by the property and end the comparison of that case"],
     )
